@@ -357,7 +357,12 @@ ADDED9 = {
   'C09': "Ninth batch: a handler object shared by all connections keeps no per-handshake state; the presence of a datapath id is never decided by its truth value.",
   'C10': "Ninth batch: shares C01's decoder rules (R-DIM, declared length).",
   'C11': "Ninth batch: the address table only learns (nothing removes a learned address).",
-  'C15': "Ninth batch: assertions that restate a dominating guard or an unsigned field's range are not raising sites.",
+  'C15': "Ninth batch: assertions that restate a dominating guard or an unsigned field's range are not raising sites; a parser loop's remaining-bytes budget follows the cursor; an address object built for display from frame bytes needs a length test; shares C14's rules about what ipv4 / ipv6 parse leave as the next layer.",
+  'C06': "Ninth batch: the epoll adapter's descriptor -> object map is written for every listed object.",
+  'C12': "Ninth batch: the receive rules hold with every other configuration flag set as well; shares C14's rule that the IPv4 checksum covers what hdr() emits.",
+  'C13': "Ninth batch: R-CACHE also covers memo tables keyed by the query.",
+  'C14': "Ninth batch: every attribute ipv4.hdr() emits is read by what ipv4.checksum() sums.",
+  'C17': "Ninth batch: shares C01's evaluation of the fixed-width string reader / writer (port names).",
 }
 for _d in (ADDED, ADDED56, ADDED7, ADDED8, ADDED9):
   for _k, _v in _d.items():
